@@ -6,7 +6,9 @@
 (* events                                                                   *)
 (*   cfg     tasks limit, messages limit, retries per message (first event) *)
 (*   arrive  a message is enqueued                 -> Arrive               *)
-(*   take    the worker's consumer took it          -> CL_TakeM             *)
+(*   take    the worker's consumer took it          -> CL_TakeM (in-memory) *)
+(*                                                     or C_FetchAny (the     *)
+(*           background fetch of the Redis / RabbitMQ consumers)            *)
 (*   got     consume() returned it to the runner    -> CL_Resume            *)
 (*   xs/xe   the actor started / ended with outcome -> T_Start / T_End      *)
 (*   report  ack / nack / requeue took effect        -> T_Report            *)
@@ -24,7 +26,7 @@
 EXTENDS Runner, Json, IOUtils, TLCExt, SequencesExt
 
 Traces == JsonDeserialize(IOEnv.TRACE_FILE)
-MaxSilent == 6
+MaxSilent == 8
 
 VARIABLES tid, l, sl
 tvars == <<tid, l, sl>>
@@ -36,12 +38,13 @@ Cfg0(t) == Traces[t][1]
 TInit == /\ tid \in 1..Len(Traces) /\ l = 2 /\ sl = 0
          /\ InitWith([tl |-> Cfg0(tid).tl, ml |-> Cfg0(tid).ml, nq |-> Cfg0(tid).nq,
                       maxr |-> [m \in Msgs |-> IF m <= Len(Cfg0(tid).maxr) THEN Cfg0(tid).maxr[m] ELSE 0],
-                      qof |-> [m \in Msgs |-> IF m <= Len(Cfg0(tid).qof) THEN Cfg0(tid).qof[m] ELSE 1]], Msgs)
+                      qof |-> [m \in Msgs |-> IF m <= Len(Cfg0(tid).qof) THEN Cfg0(tid).qof[m] ELSE 1],
+                      pf |-> Cfg0(tid).pf, fm |-> Cfg0(tid).fm], Msgs)
          /\ TLCSet(tid, 2)
 
 QOf(m) == wc.qof[m]
 TArrive == Is("arrive") /\ Arrive(Ev.i) /\ Step
-TTake == Is("take") /\ CL_TakeM(Ev.i) /\ Step
+TTake == Is("take") /\ (CL_TakeM(Ev.i) \/ C_FetchAny(Ev.i)) /\ Step
 TGot == Is("got") /\ hand[QOf(Ev.i)] = Ev.i /\ CL_Resume(QOf(Ev.i)) /\ Step
 TXs == Is("xs") /\ T_Start(Ev.i) /\ Step
 TXe == Is("xe") /\ out[Ev.i] = Ev.out /\ T_End(Ev.i) /\ Step
@@ -53,16 +56,18 @@ TGiveback == /\ Is("giveback") /\ Step
              /\ \/ clm[QOf(Ev.i)] = Ev.i /\ CL_Cancel(QOf(Ev.i))
                 \/ clm[QOf(Ev.i)] = Ev.i /\ CL_OverBudget(QOf(Ev.i))
                 \/ Ev.i \in proc /\ T_Cancel(Ev.i)
+TCBack == Is("cback") /\ C_ReturnM(Ev.i) /\ Step
 TStop == Is("stop") /\ Step /\ (StopRequest \/ (stop /\ UNCHANGED vars))
-TFin == Is("fin") /\ OfQueue(proc, Ev.q) = ToSet(Ev.ids) /\ ConsFinish(Ev.q) /\ Step
+TFin == /\ Is("fin") /\ ConsFinish(Ev.q) /\ Step
+        /\ ToSet(Ev.ids) = (IF wc.fm = "taken" THEN OfQueue(proc, Ev.q) \ fetch[Ev.q] ELSE {lq[Ev.q][j] : j \in 1..Len(lq[Ev.q])})
 TRet == Is("ret") /\ Step /\ (Return \/ (phase = "ret" /\ UNCHANGED vars))
 Silent == /\ sl < MaxSilent /\ l <= Len(Traces[tid])
           /\ \/ FG
-             \/ \E k \in Qs : CL_Wait(k) \/ CL_Spawn(k) \/ (clm[k] = None /\ CL_Cancel(k))
+             \/ \E k \in Qs : CL_Wait(k) \/ CL_Spawn(k) \/ (clm[k] = None /\ CL_Cancel(k)) \/ C_Local(k) \/ CL_Get(k)
              \/ \E m \in Msgs : T_Callback(m) \/ (m \notin proc /\ T_Cancel(m))
           /\ sl' = sl + 1 /\ UNCHANGED <<tid, l>>
 
-TNext == TArrive \/ TTake \/ TGot \/ TXs \/ TXe \/ TReport \/ TGiveback \/ TStop \/ TFin \/ TRet \/ Silent
+TNext == TCBack \/ TArrive \/ TTake \/ TGot \/ TXs \/ TXe \/ TReport \/ TGiveback \/ TStop \/ TFin \/ TRet \/ Silent
 TSpec == TInit /\ [][TNext]_<<vars, tvars>>
 
 (* a state in which an invariant of Runner fails is not a state of the specification: the trace stops being explained there *)
@@ -71,6 +76,7 @@ Progress == Sound /\ TLCSet(tid, IF TLCGet(tid) < l THEN l ELSE TLCGet(tid))
 Reach == TLCSet(tid, IF TLCGet(tid) < l THEN l ELSE TLCGet(tid))
 ProgressOnly == Reach                                             \* actions only: is the run a behaviour of Runner at all?
 ProgressC03 == Conservation /\ AtReturn /\ Reach
+ProgressC03noAR == Conservation /\ Reach
 ProgressC09 == RunningBound /\ SlotsSound /\ Reach
 ProgressC10 == StartedBound /\ Reach
 Accepted == {t \in 1..Len(Traces) : TLCGet(t) # Len(Traces[t]) + 1 /\ PrintT(<<"REJECT", t, TLCGet(t)>>)} = {} \/ TRUE
